@@ -1079,3 +1079,489 @@ Proof.
   destruct (c_edition o); [reflexivity|].
   destruct (lookup t Edition); reflexivity.
 Qed.
+
+(* ------------------------------------------------------------------ *)
+(* statements for an optional file                                    *)
+(* ------------------------------------------------------------------ *)
+
+Lemma precedence_lemma : forall nightly f o x,
+  nodup_opts (keys (c_inline o)) = true -> plain x = true ->
+  effective (resolve nightly f o) x
+  = match lookup (c_inline o) x with
+    | Some v => v
+    | None =>
+        match flag_value o x with
+        | Some v => v
+        | None =>
+            match file_view nightly (file_table f) x with
+            | Some v => v
+            | None => default (se_base o (file_table f)) x
+            end
+        end
+    end.
+Proof.
+  intros nightly f o x Hn Hp; unfold effective.
+  rewrite (resolve_file_table nightly f o x), precedence_some by assumption.
+  unfold view_S. destruct (lookup (c_inline o) x); cbn [or_else]; [reflexivity|].
+  destruct (flag_value o x); cbn [or_else]; [reflexivity|].
+  destruct (file_view nightly (file_table f) x); reflexivity.
+Qed.
+
+Lemma alias_lemma : forall old new conv, alias_pair old new conv ->
+  forall nightly f o, nodup_opts (keys (c_inline o)) = true ->
+  effective (resolve nightly f o) new
+  = alias_spec (view_A nightly o (file_table f)) old new conv (default SE2015 new).
+Proof.
+  intros old new conv Hp nightly f o Hn; unfold effective.
+  rewrite (resolve_file_table nightly f o new), (alias_some _ _ _ Hp) by exact Hn.
+  destruct Hp; reflexivity.
+Qed.
+
+Lemma alias_merge_imports_lemma : forall nightly f o,
+  nodup_opts (keys (c_inline o)) = true ->
+  effective (resolve nightly f o) ImportsGranularity
+  = alias_spec (view_A nightly o (file_table f)) MergeImports ImportsGranularity conv_merge_imports G_PRESERVE.
+Proof. exact (alias_lemma _ _ _ ap_mi). Qed.
+
+Lemma alias_fn_args_layout_lemma : forall nightly f o,
+  nodup_opts (keys (c_inline o)) = true ->
+  effective (resolve nightly f o) FnParamsLayout
+  = alias_spec (view_A nightly o (file_table f)) FnArgsLayout FnParamsLayout (fun v => v) 1.
+Proof. exact (alias_lemma _ _ _ ap_fal). Qed.
+
+Lemma alias_hide_parse_errors_lemma : forall nightly f o,
+  nodup_opts (keys (c_inline o)) = true ->
+  effective (resolve nightly f o) ShowParseErrors
+  = alias_spec (view_A nightly o (file_table f)) HideParseErrors ShowParseErrors (fun v => v) 1.
+Proof. exact (alias_lemma _ _ _ ap_hpe). Qed.
+
+Lemma was_set_lemma : forall nightly f o x,
+  was_set (resolve nightly f o x)
+  = mem_opt x (keys (c_inline o)) || is_some (file_view nightly (file_table f) x).
+Proof. intros nightly f o x. rewrite (resolve_file_table nightly f o x). apply resolve_ws_some. Qed.
+
+Lemma explicit_width_clamped_lemma : forall nightly f o w,
+  is_width w = true -> was_set (resolve nightly f o w) = true ->
+  effective (resolve nightly f o) w <= effective (resolve nightly f o) MaxWidth.
+Proof. intros nightly f o w Hw Hs. exact (proj1 (resolve_WInv nightly f o w Hw) Hs). Qed.
+
+Lemma unset_width_lemma : forall nightly f o w,
+  is_width w = true -> was_set (resolve nightly f o w) = false ->
+  effective (resolve nightly f o) w
+  = heuristic_value (effective (resolve nightly f o) UseSmallHeuristics)
+                    (effective (resolve nightly f o) MaxWidth) w.
+Proof. intros nightly f o w Hw Hs. exact (proj2 (resolve_WInv nightly f o w Hw) Hs). Qed.
+
+Lemma max_heuristics_lemma : forall nightly f o w,
+  is_width w = true -> was_set (resolve nightly f o w) = false ->
+  effective (resolve nightly f o) UseSmallHeuristics = H_MAX ->
+  effective (resolve nightly f o) w = effective (resolve nightly f o) MaxWidth.
+Proof.
+  intros nightly f o w Hw Hs Hh. rewrite (unset_width_lemma _ _ _ _ Hw Hs), Hh. reflexivity.
+Qed.
+
+Lemma off_heuristics_lemma : forall nightly f o w,
+  is_width w = true -> was_set (resolve nightly f o w) = false ->
+  effective (resolve nightly f o) UseSmallHeuristics = H_OFF ->
+  effective (resolve nightly f o) w = wh_null w.
+Proof.
+  intros nightly f o w Hw Hs Hh. rewrite (unset_width_lemma _ _ _ _ Hw Hs), Hh. reflexivity.
+Qed.
+
+Lemma scaled_le_max_iff_lemma : forall nightly f o w,
+  is_width w = true -> was_set (resolve nightly f o w) = false ->
+  effective (resolve nightly f o) UseSmallHeuristics = H_DEFAULT ->
+  (effective (resolve nightly f o) w <= effective (resolve nightly f o) MaxWidth
+   <-> default_width w <= effective (resolve nightly f o) MaxWidth).
+Proof.
+  intros nightly f o w Hw Hs Hh. rewrite (unset_width_lemma _ _ _ _ Hw Hs), Hh.
+  change (heuristic_value H_DEFAULT (effective (resolve nightly f o) MaxWidth) w)
+    with (wh_scaled (effective (resolve nightly f o) MaxWidth) w).
+  apply scaled_le_iff; exact Hw.
+Qed.
+
+Lemma width_precedence_lemma : forall nightly f o w,
+  nodup_opts (keys (c_inline o)) = true -> mem_opt MaxWidth (keys (c_inline o)) = false ->
+  is_width w = true ->
+  effective (resolve nightly f o) w
+  = match view_A nightly o (file_table f) w with
+    | Some v => N.min v (effective (resolve nightly f o) MaxWidth)
+    | None => heuristic_value (effective (resolve nightly f o) UseSmallHeuristics)
+                              (effective (resolve nightly f o) MaxWidth) w
+    end.
+Proof.
+  intros nightly f o w Hn Hm Hw; unfold effective.
+  rewrite (resolve_file_table nightly f o w), (resolve_file_table nightly f o MaxWidth),
+          (resolve_file_table nightly f o UseSmallHeuristics).
+  apply (width_NM_some nightly (file_table f) o w Hn Hm Hw).
+Qed.
+
+(* ------------------------------------------------------------------ *)
+(* the same value from the file or from --config                      *)
+(* ------------------------------------------------------------------ *)
+
+Lemma nodup_mid : forall a x b,
+  nodup_opts (a ++ x :: b) = true -> nodup_opts (a ++ b) = true /\ mem_opt x (a ++ b) = false.
+Proof.
+  induction a as [|y a IH]; intros x b H; cbn [app nodup_opts] in *.
+  - apply andb_true_iff in H; destruct H as [H1 H2]. apply negb_true_iff in H1. split; assumption.
+  - apply andb_true_iff in H; destruct H as [H1 H2]. apply negb_true_iff in H1.
+    rewrite mem_opt_app in H1. cbn [mem_opt] in H1.
+    apply orb_false_iff in H1; destruct H1 as [H1a H1b]. apply orb_false_iff in H1b; destruct H1b as [H1b H1c].
+    destruct (IH x b H2) as [I1 I2]. split.
+    + rewrite mem_opt_app, H1a, H1c, I1; reflexivity.
+    + cbn [mem_opt]. rewrite (opt_eqb_sym y x), H1b, I2; reflexivity.
+Qed.
+
+Lemma keys_app : forall l1 l2, keys (l1 ++ l2) = keys l1 ++ keys l2.
+Proof. intros l1 l2; unfold keys; apply map_app. Qed.
+
+Lemma flag_value_set_inline : forall o l x, flag_value (set_inline o l) x = flag_value o x.
+Proof. intros o l x; destruct x; reflexivity. Qed.
+
+Section Move.
+Variables (nightly : bool) (t : table) (cl : cli) (l1 l2 : table) (o : opt) (v : value).
+Hypothesis Hinl : c_inline cl = l1 ++ l2.
+Let cl' := set_inline cl (l1 ++ (o, v) :: l2).
+Hypothesis Hnd : nodup_opts (keys (c_inline cl')) = true.
+Hypothesis Hfl : flag_value cl o = None.
+Hypothesis Hst : is_stable_option_and_value nightly o v = true.
+
+Lemma move_nodup : nodup_opts (keys (c_inline cl)) = true /\ lookup (c_inline cl) o = None.
+Proof.
+  unfold cl' in Hnd; cbn [set_inline c_inline] in Hnd. rewrite keys_app in Hnd. cbn [keys map fst] in Hnd.
+  destruct (nodup_mid _ _ _ Hnd) as [H1 H2]. rewrite Hinl, keys_app. split; [exact H1|].
+  apply lookup_none_iff. rewrite keys_app. exact H2.
+Qed.
+
+Lemma move_lookup : forall x,
+  lookup (c_inline cl') x = if opt_eqb o x then Some v else lookup (c_inline cl) x.
+Proof.
+  intros x. destruct move_nodup as [_ Hno]. rewrite Hinl in *. unfold cl'; cbn [set_inline c_inline].
+  rewrite !lookup_app, lookup_cons. rewrite lookup_app in Hno.
+  destruct (opt_eqb o x) eqn:E.
+  - apply opt_eqb_eq in E; subst x. destruct (lookup l1 o); [discriminate Hno | reflexivity].
+  - reflexivity.
+Qed.
+
+Lemma move_file_view : forall x,
+  file_view nightly ((o, v) :: t) x = if opt_eqb o x then Some v else file_view nightly t x.
+Proof.
+  intros x; unfold file_view; rewrite lookup_cons. destruct (opt_eqb o x) eqn:E; [|reflexivity].
+  apply opt_eqb_eq in E; subst x. rewrite Hst; reflexivity.
+Qed.
+
+Lemma move_view_S : forall x, view_S nightly cl ((o, v) :: t) x = view_S nightly cl' t x.
+Proof.
+  intros x; unfold view_S. rewrite move_lookup, move_file_view. unfold cl'; rewrite flag_value_set_inline.
+  destruct move_nodup as [_ Hno].
+  destruct (opt_eqb o x) eqn:E; [|reflexivity].
+  apply opt_eqb_eq in E; subst x. rewrite Hno, Hfl. reflexivity.
+Qed.
+
+Lemma move_view_Sraw : forall x, view_Sraw cl ((o, v) :: t) x = view_Sraw cl' t x.
+Proof.
+  intros x; unfold view_Sraw. rewrite move_lookup, lookup_cons. unfold cl'; rewrite flag_value_set_inline.
+  destruct move_nodup as [_ Hno].
+  destruct (opt_eqb o x) eqn:E; [|reflexivity].
+  apply opt_eqb_eq in E; subst x. rewrite Hno, Hfl. reflexivity.
+Qed.
+
+Lemma move_view_A : forall x, view_A nightly cl ((o, v) :: t) x = view_A nightly cl' t x.
+Proof.
+  intros x; unfold view_A. rewrite move_lookup, move_file_view.
+  destruct move_nodup as [_ Hno].
+  destruct (opt_eqb o x) eqn:E; [|reflexivity].
+  apply opt_eqb_eq in E; subst x. rewrite Hno. reflexivity.
+Qed.
+
+Lemma move_se_base : se_base cl ((o, v) :: t) = se_base cl' t.
+Proof. unfold se_base. rewrite !move_view_Sraw. reflexivity. Qed.
+
+Lemma move_plain : forall x, plain x = true ->
+  effective (resolve nightly (Some ((o, v) :: t)) cl) x = effective (resolve nightly (Some t) cl') x.
+Proof.
+  intros x Hp; unfold effective. destruct move_nodup as [Hn _].
+  rewrite !precedence_some by assumption. rewrite move_view_S, move_se_base. reflexivity.
+Qed.
+
+Hypothesis Hnm : mem_opt MaxWidth (keys (c_inline cl')) = false.
+
+Lemma move_nm : mem_opt MaxWidth (keys (c_inline cl)) = false.
+Proof.
+  unfold cl' in Hnm; cbn [set_inline c_inline] in Hnm. rewrite keys_app, mem_opt_app in Hnm.
+  cbn [keys map fst mem_opt] in Hnm.
+  apply orb_false_iff in Hnm; destruct Hnm as [H1 H2]. apply orb_false_iff in H2; destruct H2 as [_ H2].
+  rewrite Hinl, keys_app, mem_opt_app, H1. exact H2.
+Qed.
+
+Lemma source_irrelevant_lemma : forall x,
+  effective (resolve nightly (Some ((o, v) :: t)) cl) x = effective (resolve nightly (Some t) cl') x.
+Proof.
+  intros x. destruct move_nodup as [Hn _].
+  destruct (plain x) eqn:Hp; [apply move_plain; exact Hp|].
+  destruct (is_width x) eqn:Hw.
+  - unfold effective.
+    pose proof (width_NM_some nightly ((o, v) :: t) cl x Hn move_nm Hw) as W1.
+    pose proof (width_NM_some nightly t cl' x Hnd Hnm Hw) as W2.
+    cbv zeta in W1, W2. rewrite W1, W2.
+    rewrite move_view_A.
+    fold (effective (resolve nightly (Some ((o, v) :: t)) cl) MaxWidth).
+    fold (effective (resolve nightly (Some ((o, v) :: t)) cl) UseSmallHeuristics).
+    rewrite !move_plain by reflexivity. reflexivity.
+  - unfold effective.
+    destruct x; try (bdisc Hp); try (bdisc Hw).
+    + rewrite !(alias_some _ _ _ ap_mi) by assumption.
+      unfold alias_spec; rewrite !move_view_A, move_se_base; reflexivity.
+    + rewrite !(alias_some _ _ _ ap_fal) by assumption.
+      unfold alias_spec; rewrite !move_view_A, move_se_base; reflexivity.
+    + rewrite !(alias_some _ _ _ ap_hpe) by assumption.
+      unfold alias_spec; rewrite !move_view_A, move_se_base; reflexivity.
+Qed.
+End Move.
+
+(* ------------------------------------------------------------------ *)
+(* API setter                                                         *)
+(* ------------------------------------------------------------------ *)
+
+Lemma set_heuristics_upd_val : forall c k e e' x,
+  is_width k = false -> val e = val e' ->
+  val (set_heuristics (upd c k e) x) = val (set_heuristics (upd c k e') x).
+Proof.
+  intros c k e e' x Hk Hv.
+  assert (Hany : forall y, val (upd c k e y) = val (upd c k e' y)).
+  { intros y; unfold upd; destruct (opt_eqb y k); [exact Hv | reflexivity]. }
+  destruct (is_width x) eqn:Hw.
+  - rewrite !set_heuristics_width by exact Hw. cbn [set_val val].
+    assert (Hx : x <> k) by (intros E; subst x; rewrite Hw in Hk; discriminate Hk).
+    rewrite !(upd_other c k _ x Hx), !Hany. reflexivity.
+  - rewrite !set_heuristics_nonwidth by exact Hw. apply Hany.
+Qed.
+
+Lemma api_same_as_override_lemma : forall o v c x,
+  is_width o = false -> o <> MergeImports -> o <> FnArgsLayout -> o <> HideParseErrors ->
+  effective (setter o v c) x = effective (override_value o v c) x.
+Proof.
+  intros o v c x Hw H1 H2 H3; unfold effective, setter, override_value.
+  destruct o; try (bdisc Hw); try (contradiction H1; reflexivity); try (contradiction H2; reflexivity);
+    try (contradiction H3; reflexivity); cbn [hook]; unfold set_version;
+    first [apply set_heuristics_upd_val; reflexivity
+          | unfold upd; destruct (opt_eqb x _); reflexivity].
+Qed.
+
+Lemma lookup_snoc_other : forall l k v x, k <> x -> lookup (l ++ [(k, v)]) x = lookup l x.
+Proof.
+  intros l k v x H. rewrite lookup_app, lookup_cons, (opt_eqb_neq k x) by exact H.
+  cbn [lookup]. destruct (lookup l x); reflexivity.
+Qed.
+
+(* override_value on a loaded configuration = one more --config pair, applied last
+   (except for the three options that also select the default set) *)
+Lemma override_is_config_last_lemma : forall nightly f o k v,
+  k <> StyleEdition -> k <> Version -> k <> Edition ->
+  override_value k v (resolve nightly f o) = resolve nightly f (set_inline o (c_inline o ++ [(k, v)])).
+Proof.
+  intros nightly f o k v H1 H2 H3.
+  assert (E1 : cli_style_edition (set_inline o (c_inline o ++ [(k, v)])) = cli_style_edition o).
+  { unfold cli_style_edition; cbn [set_inline c_inline c_style_edition]. rewrite lookup_snoc_other by exact H1. reflexivity. }
+  assert (E2 : cli_version (set_inline o (c_inline o ++ [(k, v)])) = cli_version o).
+  { unfold cli_version; cbn [set_inline c_inline]. rewrite lookup_snoc_other by exact H2. reflexivity. }
+  assert (E3 : cli_edition (set_inline o (c_inline o ++ [(k, v)])) = cli_edition o).
+  { unfold cli_edition; cbn [set_inline c_inline c_edition]. rewrite lookup_snoc_other by exact H3. reflexivity. }
+  unfold resolve. rewrite E1, E2, E3. unfold apply_to, apply_inline. cbn [set_inline c_inline].
+  rewrite fold_left_app. cbn [fold_left fst snd]. destruct o; reflexivity.
+Qed.
+
+(* ------------------------------------------------------------------ *)
+(* --print-config                                                     *)
+(* ------------------------------------------------------------------ *)
+
+Lemma lookup_print : forall c t o,
+  print_config c = Some t -> lookup t o = if hidden o then None else Some (val (c o)).
+Proof.
+  intros c t o; unfold print_config, to_toml.
+  destruct (forallb _ _); [|discriminate].
+  intros H; inversion H; subst t. destruct o; reflexivity.
+Qed.
+
+Lemma reparse_unfold : forall nightly t,
+  reparse nightly t
+  = fill_from_parsed_config nightly t
+      (default_with_style_edition (base_style_edition (lookup t StyleEdition) (lookup t Version) (lookup t Edition))).
+Proof. reflexivity. Qed.
+
+Lemma print_config_roundtrip_lemma : forall nightly c t,
+  print_config c = Some t ->
+  (forall w, is_width w = true -> val (c w) <= val (c MaxWidth)) ->
+  (forall o, hidden o = false -> is_stable_option_and_value nightly o (val (c o)) = true) ->
+  forall o, hidden o = false -> effective (reparse nightly t) o = effective c o.
+Proof.
+  intros nightly c t Hp Hw Hst o Hh; unfold effective.
+  assert (Hfv : forall x, hidden x = false -> file_view nightly t x = Some (val (c x))).
+  { intros x Hx; unfold file_view. rewrite (lookup_print _ _ x Hp), Hx, (Hst x Hx). reflexivity. }
+  rewrite reparse_unfold.
+  set (b := base_style_edition _ _ _).
+  destruct (plain o) eqn:Hpl.
+  - rewrite ffpc_plain, fill_values_val, (Hfv o Hh) by exact Hpl. reflexivity.
+  - destruct (is_width o) eqn:Ew.
+    + rewrite (ffpc_width _ _ _ _ Ew), (set_heuristics_width _ _ Ew). cbn [set_val val].
+      rewrite fill_values_ws, !fill_values_val, (Hfv o Hh), (Hfv MaxWidth) by reflexivity.
+      cbn [is_some]. apply get_width_value_set_id. apply Hw; exact Ew.
+    + destruct o; try (bdisc Hpl); try (bdisc Ew).
+      * rewrite (ffpc_alias _ _ _ ap_mi); cbv zeta.
+        rewrite !fill_values_ws, (Hfv ImportsGranularity) by reflexivity. cbn [is_some negb].
+        rewrite andb_false_r, fill_values_val, (Hfv ImportsGranularity) by reflexivity. reflexivity.
+      * rewrite (ffpc_alias _ _ _ ap_fal); cbv zeta.
+        rewrite !fill_values_ws, (Hfv FnParamsLayout) by reflexivity. cbn [is_some negb].
+        rewrite andb_false_r, fill_values_val, (Hfv FnParamsLayout) by reflexivity. reflexivity.
+      * rewrite (ffpc_alias _ _ _ ap_hpe); cbv zeta.
+        rewrite !fill_values_ws, (Hfv ShowParseErrors) by reflexivity. cbn [is_some negb].
+        rewrite andb_false_r, fill_values_val, (Hfv ShowParseErrors) by reflexivity. reflexivity.
+Qed.
+
+Lemma print_config_hidden_lemma : forall nightly c t o,
+  print_config c = Some t -> hidden o = true ->
+  effective (reparse nightly t) o = default SE2015 o.
+Proof.
+  intros nightly c t o Hp Hh; unfold effective. rewrite reparse_unfold.
+  assert (Hpl : plain o = true) by (destruct o; try reflexivity; bdisc Hh).
+  rewrite ffpc_plain, fill_values_val by exact Hpl.
+  unfold file_view. rewrite (lookup_print _ _ o Hp), Hh.
+  destruct o; try (bdisc Hh); reflexivity.
+Qed.
+
+Lemma resolved_widths_le : forall nightly f o,
+  let c := resolve nightly f o in
+  (effective c UseSmallHeuristics = H_MAX \/
+   (effective c UseSmallHeuristics = H_DEFAULT /\ 70 <= effective c MaxWidth)) ->
+  forall w, is_width w = true -> val (c w) <= val (c MaxWidth).
+Proof.
+  intros nightly f o c Hh w Hw. unfold effective in Hh.
+  destruct (resolve_WInv nightly f o w Hw) as [H1 H2]. fold c in H1, H2.
+  destruct (was_set (c w)) eqn:Es; [apply H1; reflexivity|].
+  rewrite (H2 eq_refl).
+  destruct Hh as [Hh|[Hh Hm]]; rewrite Hh.
+  - change (heuristic_value H_MAX (val (c MaxWidth)) w) with (val (c MaxWidth)). lia.
+  - change (heuristic_value H_DEFAULT (val (c MaxWidth)) w) with (wh_scaled (val (c MaxWidth)) w).
+    apply scaled_le_iff; [exact Hw|].
+    assert (Hd : default_width w <= 70) by (destruct w; try (bdisc Hw); vm_compute; discriminate).
+    lia.
+Qed.
+
+Lemma print_config_roundtrip_resolved_lemma : forall f o t,
+  let c := resolve true f o in
+  print_config c = Some t ->
+  (effective c UseSmallHeuristics = H_MAX \/
+   (effective c UseSmallHeuristics = H_DEFAULT /\ 70 <= effective c MaxWidth)) ->
+  forall x, hidden x = false -> effective (reparse true t) x = effective c x.
+Proof.
+  intros f o t c Hp Hh x Hx.
+  apply (print_config_roundtrip_lemma true c t Hp).
+  - apply (resolved_widths_le true f o Hh).
+  - intros y _; reflexivity.
+  - exact Hx.
+Qed.
+
+Lemma print_config_default_roundtrip_lemma : forall nightly,
+  exists t, print_config_default = Some t /\
+            forall o, effective (reparse nightly t) o = effective (default_with_style_edition SE2015) o.
+Proof.
+  intros nightly. eexists; split; [vm_compute; reflexivity|].
+  intros o; destruct o; destruct nightly; vm_compute; reflexivity.
+Qed.
+
+(* ------------------------------------------------------------------ *)
+(* witnesses of the clauses that do not hold                          *)
+(* ------------------------------------------------------------------ *)
+
+Definition inl (l : list (opt * N)) : cli := set_inline no_cli l.
+
+(* --config max_width=50: fn_call_width stays 60 *)
+Lemma derived_widths_le_max_witness :
+  exists (f : option (list (opt * N))) (o : cli) (w : opt),
+    cli_ok o = true /\ is_width w = true /\
+    effective (resolve true f o) UseSmallHeuristics = H_DEFAULT /\
+    effective (resolve true f o) MaxWidth = 50 /\ effective (resolve true f o) w = 60.
+Proof. exists None, (inl [(MaxWidth, 50)]), FnCallWidth. vm_compute. repeat split; reflexivity. Qed.
+
+(* --config use_small_heuristics=Off: fn_call_width = usize::MAX with max_width = 100 *)
+Lemma derived_widths_off_witness :
+  exists (f : option (list (opt * N))) (o : cli) (w : opt),
+    cli_ok o = true /\ is_width w = true /\
+    effective (resolve true f o) MaxWidth = 100 /\ effective (resolve true f o) w = 18446744073709551615.
+Proof. exists None, (inl [(UseSmallHeuristics, H_OFF)]), FnCallWidth. vm_compute. repeat split; reflexivity. Qed.
+
+(* the two iteration orders of the HashMap {max_width: 200, fn_call_width: 150} *)
+Lemma config_order_witness :
+  exists l1 l2 : list (opt * N),
+    cli_ok (inl l1) = true /\ cli_ok (inl l2) = true /\ (forall x, lookup l1 x = lookup l2 x) /\
+    effective (resolve true None (inl l1)) FnCallWidth = 150 /\
+    effective (resolve true None (inl l2)) FnCallWidth = 100.
+Proof.
+  exists [(MaxWidth, 200); (FnCallWidth, 150)], [(FnCallWidth, 150); (MaxWidth, 200)].
+  repeat split; try (vm_compute; reflexivity). intros x; destruct x; reflexivity.
+Qed.
+
+(* max_width = 200 with fn_call_width = 150 in the file: from the file 150, from --config 100 *)
+Lemma source_irrelevant_max_width_witness :
+  exists (t : list (opt * N)) (v : N),
+    lookup t MaxWidth = None /\
+    effective (resolve true (Some ((MaxWidth, v) :: t)) no_cli) FnCallWidth = 150 /\
+    effective (resolve true (Some t) (inl [(MaxWidth, v)])) FnCallWidth = 100.
+Proof. exists [(FnCallWidth, 150)], 200. vm_compute. repeat split; reflexivity. Qed.
+
+(* unstable_features = true in the file, no --unstable-features flag *)
+Lemma unstable_features_file_ignored_witness :
+  exists t : list (opt * N),
+    table_ok t = true /\ lookup t UnstableFeatures = Some 1 /\
+    effective (resolve true (Some t) no_cli) UnstableFeatures = 0 /\
+    effective (resolve true None (inl [(UnstableFeatures, 1)])) UnstableFeatures = 1.
+Proof. exists [(UnstableFeatures, 1)]. vm_compute. repeat split; reflexivity. Qed.
+
+(* hide_parse_errors = b gives show_parse_errors = b *)
+Lemma hide_parse_errors_witness : forall nightly b,
+  effective (resolve nightly None (inl [(HideParseErrors, b)])) ShowParseErrors = b /\
+  effective (resolve true (Some [(HideParseErrors, b)]) no_cli) ShowParseErrors = b.
+Proof. intros nightly b; destruct nightly; vm_compute; split; reflexivity. Qed.
+
+(* --edition 2021 alone: style_edition 2015 *)
+Lemma se_edition_witness :
+  effective (resolve true None (mk_cli None (Some 2) None false None false None false [])) StyleEdition = SE2015 /\
+  se_base (mk_cli None (Some 2) None false None false None false []) [] = SE2021.
+Proof. vm_compute; split; reflexivity. Qed.
+
+(* API setter on a width that was not set: no effect; on merge_imports / version: successor unchanged *)
+Lemma api_setter_witness :
+  let d := default_with_style_edition SE2015 in
+  effective (setter FnCallWidth 30 d) FnCallWidth = 60 /\
+  effective (override_value FnCallWidth 30 d) FnCallWidth = 30 /\
+  effective (setter MergeImports 1 d) ImportsGranularity = G_PRESERVE /\
+  effective (override_value MergeImports 1 d) ImportsGranularity = G_CRATE /\
+  effective (setter Version V_TWO d) StyleEdition = SE2015 /\
+  effective (override_value Version V_TWO d) StyleEdition = SE2015 /\
+  effective (resolve true None (inl [(Version, V_TWO)])) StyleEdition = SE2024.
+Proof. vm_compute. repeat split; reflexivity. Qed.
+
+(* stable channel: an unstable option is ignored in the file but accepted from --config *)
+Lemma stable_channel_witness :
+  effective (resolve false (Some [(ImportsGranularity, G_CRATE)]) no_cli) ImportsGranularity = G_PRESERVE /\
+  effective (resolve false None (inl [(ImportsGranularity, G_CRATE)])) ImportsGranularity = G_CRATE.
+Proof. vm_compute; split; reflexivity. Qed.
+
+(* --print-config current with max_width = 50: fn_call_width is printed as 60 and re-read as 50 *)
+Lemma print_config_roundtrip_witness :
+  exists (o : cli) (t : list (opt * N)),
+    cli_ok o = true /\ print_config (resolve true None o) = Some t /\ table_ok t = true /\
+    effective (resolve true None o) FnCallWidth = 60 /\
+    effective (reparse true t) FnCallWidth = 50 /\
+    effective (resolve true (Some t) no_cli) FnCallWidth = 50.
+Proof.
+  exists (inl [(MaxWidth, 50)]).
+  destruct (print_config (resolve true None (inl [(MaxWidth, 50)]))) as [t|] eqn:E; [|vm_compute in E; discriminate E].
+  exists t. vm_compute in E. inversion E; subst t. vm_compute. repeat split; reflexivity.
+Qed.
+
+(* --print-config current with use_small_heuristics = Off: serialisation fails *)
+Lemma print_config_off_witness :
+  print_config (resolve true None (inl [(UseSmallHeuristics, H_OFF)])) = None.
+Proof. vm_compute; reflexivity. Qed.
